@@ -12,7 +12,7 @@ import numpy as np
 from scipy import sparse
 
 GETTERS = ["array", "volumes", "volumes_approx", "hulls", "hulls_plain", "polytope_nodes", "adjacency", "borders", "distances",
-           "adjacency_full", "borders_noopp", "distances_full"]
+           "adjacency_full", "borders_noopp", "distances_full", "array_upper"]
 DIM = {"ico": 3, "cube3D": 3, "randomS": 3, "zero3D": 3, "cube4D": 4, "randomQ": 4, "fulldiv": 4, "zero4D": 4}
 
 
@@ -38,6 +38,8 @@ def create(alg, N):
 def call_getter(g, what):
     if what == "array":
         return g.get_grid_as_array(only_upper=False)
+    if what == "array_upper":           # the documented upper-half selection (directions and rotations alike)
+        return g.get_grid_as_array(only_upper=True)
     if what == "volumes":
         return g.get_spherical_voronoi().get_voronoi_volumes()
     if what == "volumes_approx":        # the same getter with its documented `approx` argument (3D: numerical estimate)
